@@ -621,7 +621,10 @@ class FGen:
         if target == "multiple" and kind == "angle":
             kind = "bond"
         chain = {"bond": 2, "angle": 3, "nonbonded": 1}[kind]
-        ntail = int(self.ch([1, 1, 2]))
+        # a natural C2 spline is still determined by exact data on the other
+        # intervals when a single (end or interior) interval is unsampled;
+        # two or more adjacent intervals at an end are not
+        ntail = int(self.ch([2, 2, 3]))
         nspecial = 14 * ntail
         need_b = 2 * nspecial            # z rows that must be dropped
         best = None
@@ -670,6 +673,7 @@ class FGen:
             st, lo, k = self.ch([0.2, 0.25]), self.ch([0.8, 1.0]), int(r.randint(4, 7))
         else:
             st, lo, k = self.ch([0.05, 0.1]), self.ch([0.25, 0.3]), int(r.randint(4, 8))
+        k = max(k, ntail + 3)
         it = {"class": "pair" if kind == "nonbonded" else "bonded",
               "name": "NB" if kind == "nonbonded" else kind + "1",
               "min": lo, "max": round(lo + k * st, 6), "step": st}
